@@ -212,8 +212,10 @@ storage_close(struct Storage* self)
     CHECK(self);
     storage_stop(self);
 
-    driver_close_device(&self->device);
+    // The driver's close releases the device (the storage drivers free it),
+    // so `self` must not be touched after driver_close_device() returns.
     self->state = DeviceState_Closed;
+    driver_close_device(&self->device);
 Error:;
 }
 
